@@ -316,3 +316,152 @@ def concurrent(tier, seed, n=None):
         steps.append({"op": "req", "rq": rq(u=0, sel=[0, 0, 1, 0]), "ans": [ans(ccp=1, ma=60, etag=2)]})
         out.append({"id": "conc/%05d" % i, "backend": "fs" if i % 4 == 3 else "mem", "opt": {}, "steps": steps, "grp": "", "spv": 0})
     return out
+
+
+# ----------------------------------------------------------------------------
+# key-value store scenarios (C14, C15, C17)
+import base64
+
+
+def _bytes(r, n, kind):
+    if kind == "url":
+        s = ("https://example.com/" + "p" * n + "?x=1#12345")[:max(n, 1)]
+        return s.encode()
+    if kind == "bin":
+        return bytes(r.randrange(0, 256) for _ in range(n))
+    if kind == "ff":
+        return bytes([0xff, 0x00, 0x2f, 0x2e] * (n // 4 + 1))[:n]
+    return bytes(r.choice(b"abcxyz/.#%") for _ in range(n))
+
+
+CHUNKS = [(36, 156, 36), (36, 36, 36), (1, 1, 1), (191, 1, 1), (192, 36, 36), (3, 189, 3), (35, 1, 156), (72, 144, 36), (0, 5, 5),
+          (36, 105, 51), (141, 51, 1), (189, 3, 36), (255, 1, 1), (33, 3, 300), (36, 1000, 1000)]
+VSIZES = [0, 1, 17, 100, 4096, 70000]
+
+
+def kv_keys(r, variant):
+    a, b, c = CHUNKS[variant % len(CHUNKS)]
+    kind = ["txt", "bin", "url", "ff"][(variant // len(CHUNKS)) % 4]
+    ka = _bytes(r, a, kind)
+    kb = ka + _bytes(r, b, kind)
+    kc = kb + _bytes(r, c, kind)
+    return [base64.b64encode(k).decode() for k in (ka, kb, kc)]
+
+
+def kv_kind(variant):
+    return ["txt", "bin", "url", "ff"][(variant // len(CHUNKS)) % 4]
+
+
+def kv_from_rows(rows, tier, seed):
+    r = random.Random(seed * 179424673 + 31)
+    cap = 1500 if tier == "quick" else 10 ** 9
+    if len(rows) > cap:
+        rows = r.sample(rows, cap)
+    out = []
+    for i, row in enumerate(rows):
+        be = ["fs", "mem", "fsenc", "fs"][i % 4]
+        ops = []
+        variant = r.randrange(0, 60)
+        for o in row["ops"]:
+            o2 = dict(o)
+            # the HTTP API carries keys in a URL path and in JSON: only URL-shaped (UTF-8) keys go through it
+            if kv_kind(variant) == "url":
+                c = r.random()
+                if o["op"] == "get" and c < 0.15:
+                    o2["op"] = "api_get"
+                elif o["op"] == "del" and c < 0.15:
+                    o2["op"] = "api_del"
+                elif o["op"] == "keys" and c < 0.15:
+                    o2["op"] = "api_list"
+            ops.append(o2)
+        vals = [{"len": r.choice(VSIZES), "seed": r.randrange(1, 10 ** 9)}, {"len": r.choice(VSIZES[1:]), "seed": r.randrange(1, 10 ** 9)}]
+        if vals[0]["len"] == vals[1]["len"] and vals[0]["len"] == 0:
+            vals[1]["len"] = 3
+        out.append({"id": "kv/%06d" % i, "backend": be, "keys": kv_keys(r, variant), "vals": vals, "ops": ops})
+    return out
+
+
+def kv_random(tier, seed, n=None):
+    """long random operation sequences over 6 keys forming prefix chains, with reopen between operations"""
+    r = random.Random(seed * 198491317 + 37)
+    n = n or (150 if tier == "quick" else 5000)
+    out = []
+    for i in range(n):
+        v1, v2 = r.randrange(0, 60), r.randrange(0, 60)
+        api = kv_kind(v1) == "url" and kv_kind(v2) == "url"
+        k1 = kv_keys(r, v1)
+        k2 = kv_keys(r, v2)
+        keys = k1 + k2
+        if len(set(keys)) < 6:
+            keys = list(dict.fromkeys(keys))
+        vals = [{"len": r.choice(VSIZES + [1 << 20] if i % 25 == 0 else VSIZES), "seed": r.randrange(1, 10 ** 9)} for _ in range(4)]
+        ops = []
+        for _ in range(r.randrange(10, 40) if tier == "quick" else r.randrange(20, 100)):
+            c = r.random()
+            k = r.randrange(0, len(keys))
+            if c < 0.35:
+                ops.append({"op": "set", "k": k, "v": r.randrange(0, 4)})
+            elif c < 0.6:
+                ops.append({"op": r.choice(["get", "get", "api_get"]) if api else "get", "k": k})
+            elif c < 0.75:
+                ops.append({"op": r.choice(["del", "del", "api_del"]) if api else "del", "k": k})
+            elif c < 0.9:
+                ops.append({"op": r.choice(["keys", "api_list"]) if api else "keys", "p": r.choice([-1, k])})
+            else:
+                ops.append({"op": "reopen"})
+        out.append({"id": "kvrnd/%05d" % i, "backend": ["fs", "fsenc", "mem"][i % 3], "keys": keys, "vals": vals, "ops": ops})
+    return out
+
+
+def kv_cuts(tier, seed, n=None):
+    """a write cut short at every byte (file size limit) or killed at every step / at random instants (C15)"""
+    r = random.Random(seed * 217645199 + 41)
+    out = []
+    keys = [base64.b64encode(b"the-key").decode(), base64.b64encode(b"k" * 200).decode()]
+    i = 0
+    for be in ("fs", "fsenc"):
+        for prev in (False, True):
+            vlen = 48 if tier == "quick" else 300
+            over = 40  # nonce + tag of the encrypted form
+            for cut in list(range(0, vlen + over + 2)) + [4096]:
+                vals = [{"len": 33, "seed": 5}, {"len": vlen, "seed": 7 + cut}]
+                ops = ([{"op": "set", "k": 0, "v": 0}] if prev else []) + [
+                    {"op": "set_cut", "k": 0, "v": 1, "cut": cut}, {"op": "get", "k": 0}, {"op": "keys", "p": -1},
+                    {"op": "reopen"}, {"op": "get", "k": 0}, {"op": "set", "k": 0, "v": 0}, {"op": "get", "k": 0}]
+                out.append({"id": "cut/%s-%d-%04d" % (be, prev, cut), "backend": be, "keys": keys, "vals": vals, "ops": ops})
+            for step in list(range(0, 7)) + [-1] * (6 if tier == "quick" else 60):
+                i += 1
+                vals = [{"len": 33, "seed": 5}, {"len": 1 << 20 if step == -1 else 5000, "seed": 1000 + i}]
+                ops = ([{"op": "set", "k": 1, "v": 0}] if prev else []) + [
+                    {"op": "set_kill", "k": 1, "v": 1, "cut": step}, {"op": "get", "k": 1}, {"op": "keys", "p": -1},
+                    {"op": "reopen"}, {"op": "get", "k": 1}, {"op": "set", "k": 1, "v": 0}, {"op": "get", "k": 1}, {"op": "keys", "p": -1}]
+                out.append({"id": "kill/%s-%d-%d-%d" % (be, prev, step, i), "backend": be, "keys": keys, "vals": vals, "ops": ops})
+    return out
+
+
+def kv_crypto(tier, seed, n=None):
+    """encryption at rest: plaintext search, nonce freshness, tampering at every position, wrong key, ways of enabling (C17)"""
+    r = random.Random(seed * 236887691 + 43)
+    out = []
+    keys = [base64.b64encode(b"key-one").decode(), base64.b64encode(b"key-two").decode()]
+    for vlen in ([24, 100] if tier == "quick" else [0, 1, 24, 100, 2000]):
+        vals = [{"len": vlen, "seed": 11}, {"len": vlen + 16, "seed": 13}]
+        flen = vlen + 12 + 16
+        step = 1 if tier == "thorough" or flen < 70 else 3
+        for pos in range(0, flen, step):
+            for how in ("flip", "trunc"):
+                ops = [{"op": "set", "k": 0, "v": 0}, {"op": "set", "k": 1, "v": 1}, {"op": "tamper", "k": 0, "how": how, "pos": pos if how == "flip" else pos},
+                       {"op": "get", "k": 0}, {"op": "get", "k": 1}, {"op": "set", "k": 0, "v": 0}, {"op": "get", "k": 0}]
+                out.append({"id": "tamper/%d-%s-%04d" % (vlen, how, pos), "backend": "fsenc", "keys": keys, "vals": vals, "ops": ops})
+        for how in ("extend", "swap"):
+            ops = [{"op": "set", "k": 0, "v": 0}, {"op": "set", "k": 1, "v": 1}, {"op": "tamper", "k": 0, "how": how, "pos": 7, "k2": 1},
+                   {"op": "get", "k": 0}, {"op": "get", "k": 1}]
+            out.append({"id": "tamper/%d-%s" % (vlen, how), "backend": "fsenc", "keys": keys, "vals": vals, "ops": ops})
+        ops = [{"op": "set", "k": 0, "v": 0}, {"op": "set", "k": 0, "v": 0}, {"op": "set", "k": 0, "v": 0}, {"op": "get", "k": 0},
+               {"op": "reopen_wrongkey"}, {"op": "get", "k": 0}, {"op": "reopen_plain"}, {"op": "get", "k": 0}, {"op": "reopen"}, {"op": "get", "k": 0}]
+        out.append({"id": "keys/%d" % vlen, "backend": "fsenc", "keys": keys, "vals": vals, "ops": ops})
+    vals = [{"len": 200, "seed": 17}, {"len": 64, "seed": 19}]
+    for how in ("opt_ok", "opt_empty", "opt_badb64", "opt_short", "opt_15bytes", "dsn_ok", "dsn_aesgcm_ok", "dsn_nokey", "dsn_aesgcm_nokey",
+                "dsn_badkey", "dsn_shortkey", "dsn_env_ok", "dsn_env_empty", "dsn_env_bad"):
+        out.append({"id": "open/" + how, "backend": "fs", "keys": keys, "vals": vals, "ops": [{"op": "open_enc", "how": how, "v": 0}]})
+    return out
